@@ -343,6 +343,27 @@ theorem xlsx_styles_events_total (evs : List SEv) :
     (∃ t, xlsxStylesOfEvents evs = .ok t) ∨ (∃ e, xlsxStylesOfEvents evs = .err e) :=
   xlsxStylesLoop_total evs .top [] []
 
+
+/-- **leading zeros of a `numFmtId` are not significant** (after fix 6b28a55): `format_id` maps every decimal
+    spelling of `n` with leading zeros to the canonical one … -/
+theorem format_id_leading_zeros (z n : Nat) : formatId (padId z n) = decimal n := formatId_padId z n
+
+/-- … so `read_styles` on attribute texts with ANY mixture of spellings — each `<numFmt>` and each `<xf>` with its
+    own number of leading zeros, built-in and custom ids alike — builds the table of the canonical spellings:
+    `numFmtId="014"` is the date format 14, `<numFmt numFmtId="164" …>` is found by `<xf numFmtId="0164">` and vice
+    versa. (The generated table `builtinById` is unchanged: it is asked with the canonical text.) -/
+theorem leading_zeros_classify_alike (defs : List (Nat × Nat × List Char)) (xfs : List (Nat × Nat)) :
+    xlsxStylesRaw (defs.map fun d => (padId d.1 d.2.1, d.2.2)) (xfs.map fun x => some (padId x.1 x.2)) =
+      xlsxStyles (defs.map fun d => (decimal d.2.1, d.2.2)) (xfs.map fun x => some (decimal x.2)) := by
+  unfold xlsxStylesRaw
+  simp only [List.map_map, Function.comp_def, Option.map_some, formatId_padId]
+
+example : xlsxStylesRaw [] [some (padId 1 14), some (padId 0 14), some (padId 3 46), some (padId 2 0)]
+    = .ok [.dateTime, .dateTime, .timeDelta, .other] ∧
+    xlsxStylesRaw [(padId 0 164, "yyyy".toList)] [some (padId 1 164)] = .ok [.dateTime] ∧
+    xlsxStylesRaw [(padId 2 164, "yyyy".toList)] [some (padId 0 164)] = .ok [.dateTime] ∧
+    formatId [48, 48] = [48] ∧ formatId [43, 49] = [43, 49] ∧ formatId [] = [] := by decide +kernel
+
 /-- (b) xls: FORMAT / XF records in any interleaving with other records (narrow or wide strings, any XF tail), up to
     the EOF record: the decoded table is `xlsStyles` of the formats and XF ids in file order -/
 theorem xls_styles_roundtrip (items : List XlsItem) (hwf : ∀ i ∈ items, i.WF) (after : List (Nat × Bytes)) :
@@ -415,7 +436,7 @@ example :
       .end_ "x:numFmt".toList, .end_ "x:dxfs".toList]
     let lx : XlsxLayout := ⟨some "x".toList, false, [], [.other], mid, post, [("fontId".toList, decimal 0)],
       [("xfId".toList, decimal 0), ("applyNumberFormat".toList, decimal 0)],
-      [.start "x:alignment".toList [], .end_ "x:alignment".toList], []⟩
+      [.start "x:alignment".toList [], .end_ "x:alignment".toList], [], 2, 1⟩
     let lb : XlsbLayout := ⟨[⟨0x0116, [], false, 0⟩, ⟨0x0263, [0xE7, 0x04, 1, 0], true, 2⟩],
       [⟨0x0272, Xlsb.le32 1, false, 0⟩, ⟨0x002F, brtXfPayload 14 0xFFFF [], false, 0⟩, ⟨0x0273, [], false, 0⟩],
       [0x97, 0x02, 0x00], [⟨true, 3⟩], [], ⟨false, 0⟩⟩
